@@ -1,8 +1,8 @@
 package main
 
 import (
-	"os"
 	"encoding/json"
+	"os"
 
 	"verifharness/gram"
 	"verifharness/ref"
@@ -11,8 +11,8 @@ import (
 
 // GCase is a grammar case as stored in progress and replay files.
 type GCase struct {
-	Origin string     `json:"origin"` // class or family name
-	Spec   *gram.Spec `json:"spec"`
+	Origin string          `json:"origin"` // class or family name
+	Spec   *gram.Spec      `json:"spec"`
 	Extra  json.RawMessage `json:"extra,omitempty"`
 }
 
